@@ -7,6 +7,12 @@
                1 = direct BaseException subclass, 2 = GeneratorExit, 3 = SystemExit) | L3 S"n" <headers> <list of items>
         → `ok L4 <exit> <assertFailed> <final stack> <list, per request, of the custom lines + UA line>`
           exit = N (the code ended normally) | I<kind> (that exception came out; 4 = pop_headers' AssertionError)
+    cfgua <L3: default arg steps>      default : the process's default user agent; arg : the `user_agent` argument of
+        `Config(...)` (any value); steps : list of S"copy" (`cfg = cfg.copy()`) | L2 S"store" <v> (`cfg.user_agent = v`)
+        → `ok <value>` the `user_agent` attribute of a transport built from the resulting configuration
+    hdrcfg <L7: contentType bodyLen default arg steps extra stack>
+        → `ok <list of [name, value]>` the header lines of a request of such a transport (`err Unmodelled` when the
+          user agent is not a string)
   `str(value)` is modelled for str, int, bool and None values; anything else answers `err Unmodelled`.
 -/
 import JRV.Driver.Codec
@@ -47,6 +53,31 @@ def hdrC (toks : List String) : String :=
     match hdict? extra, hstack? stack with
     | some e, some s => "ok " ++ showVal (showLines (sendContent strOfD ct len.toNat ua e s))
     | _, _ => "err Unmodelled N"
+  | _ => "bad-op"
+
+def cfgStep? : PyVal → Option CfgStep
+  | .str "copy" => some .copy
+  | .list [.str "store", v] => some (.store v)
+  | _ => Option.none
+
+def cfguaC (toks : List String) : String :=
+  match readVal toks with
+  | some (.list [dflt, arg, .list steps], []) =>
+    match steps.mapM cfgStep? with
+    | some st => "ok " ++ showVal (transportAgent (configAgent dflt arg st))
+    | Option.none => "bad-op"
+  | _ => "bad-op"
+
+def hdrcfgC (toks : List String) : String :=
+  match readVal toks with
+  | some (.list [.str ct, .int len, .str dflt, arg, .list steps, extra, stack], []) =>
+    match steps.mapM cfgStep?, hdict? extra, hstack? stack with
+    | some st, some e, some s =>
+      match sendContentCfg strOfD ct len.toNat (configAgent (.str dflt) arg st) e s with
+      | some ls => "ok " ++ showVal (showLines ls)
+      | Option.none => "err Unmodelled N"
+    | Option.none, _, _ => "bad-op"
+    | _, _, _ => "err Unmodelled N"
   | _ => "bad-op"
 
 def showExit : Option ExcKind → PyVal
@@ -92,7 +123,7 @@ def blocksC (toks : List String) : String :=
   | _ => "bad-op"
 
 def headersComponents : List (String × (List String → String)) := [
-  ("hdr", hdrC), ("blocks", blocksC)
+  ("hdr", hdrC), ("blocks", blocksC), ("cfgua", cfguaC), ("hdrcfg", hdrcfgC)
 ]
 
 end JRV.Driver
